@@ -129,6 +129,8 @@ def run(ctx):
                sites=[(b.file, b.line, b.path)], sample={"result": show(r)[:200], "yes_nonzero_decided": nonzero})
     ctx.floor("R04.1", "is_passed paths that can return true", n, 4)
     check_siblings(ctx, paths)
+    from ..idioms import check_overflow_profile
+    check_overflow_profile(ctx)
     check_decisions(ctx, paths)
     # ---- R04.2 / R04.3
     vb = ctx.facts.bodies.get(VOTES_NEEDED)
